@@ -49,7 +49,16 @@ def cases(draw, ctx):
     cfg = R.RCfg(depth=depth)
     recipe = draw(R.recipes(cfg, _gen=gen))
     extra_roots = []
-    if draw(st.integers(0, 4)) == 0:
+    has_twin = False
+    if recipe.get("kind") == "Object" and draw(st.integers(0, 3)) == 0:
+        # a structurally identical class under another name (equality ignores class names),
+        # shareable by everything generated later
+        other = R.twin(recipe, gen)
+        if other is not None:
+            extra_roots.append(other)
+            gen.done.extend([other] * 3)
+            has_twin = True
+    if draw(st.integers(0, 4)) == 0 or (has_twin and draw(st.booleans())):
         extra_roots.append(draw(R.recipes(cfg, depth=2, _gen=gen)))
     defs = []
     mode = draw(st.sampled_from(["none", "none", "subtree", "subtree", "independent", "mixed"]))
